@@ -66,8 +66,9 @@ void check_C04(Src &s, Ctx &ctx) {
       ctx.count("id3-batch", nx); }
 
     // (1) evaluate == interpolation weights x values ; (7) differentiate == differentiation weights x values
-    bool id1 = !coeff_overwritten || (!g.isLocalPolynomial()) || lp_complete;
-    if (g.isLocalPolynomial() && !lp_complete) id1 = false;
+    // weights x values is asserted for every grid whose values were supplied by a load (the statement has no completeness caveat);
+    // after setHierarchicalCoefficients on a local polynomial grid only if the point set is parent-complete
+    bool id1 = !(g.isLocalPolynomial() && coeff_overwritten && !lp_complete);
     std::vector<double> w;   // reused across x
     for (int r = 0; r < nx && id1; r++) {
         std::vector<double> xr(X.begin() + (long)r * d, X.begin() + (long)(r + 1) * d);
